@@ -129,6 +129,10 @@ def describe(rec):
 def run_check(prop, tier, seed, replay=None):
     t0 = time.time()
     os.makedirs(os.path.join(C.WORK, prop.id), exist_ok=True)
+    if not replay and os.path.isdir(C.REPLAYS):
+        for fn in os.listdir(C.REPLAYS):        # replays of earlier runs of this property are stale
+            if fn.startswith(prop.id + "-"):
+                os.remove(os.path.join(C.REPLAYS, fn))
     notes = []
     broken = []          # proof obligations / correspondence channels that no longer check
     assumptions_seen = {}
